@@ -3,9 +3,13 @@
 namespace vsim {
 Plan plan_C09(Rng& r, const std::string& tier);
 Plan plan_C10(Rng& r, const std::string& tier);
+Plan plan_C07(Rng& r, const std::string& tier);
+Plan plan_C08(Rng& r, const std::string& tier);
 bool generate_plan_ext(const std::string& profile, const std::string& tier, Rng& r, Plan& p) {
 	if (profile == "C09") { p = plan_C09(r, tier); return true; }
 	if (profile == "C10") { p = plan_C10(r, tier); return true; }
+	if (profile == "C07") { p = plan_C07(r, tier); return true; }
+	if (profile == "C08") { p = plan_C08(r, tier); return true; }
 	return false;
 }
 }
